@@ -12,7 +12,11 @@ print(vr, 'wall',round(r['wall_s'],1))
 for k,v in per.items():
     if v['verdict']!='discharged':
         print(k,v['verdict'],v['ms'])
-        for m in v['messages'][:3]: print('    ',m['message'],m['lines'], m['text'][:2])
+        L=t.split('\n')
+        for m in v['messages'][:4]:
+            print('    ',m['message'],m['lines'])
+            for ln,lab in m['lines']:
+                if lab and 'failed' in lab: print('        >>',L[ln-1].strip()[:300])
 print('stray',stray[:5]); print('frontend',fe[:5])
 print(sum(1 for v in per.values() if v['verdict']=='discharged'),'/',len(per))
 if fe or vr is None: print(r['raw_err_tail'][-1500:])
